@@ -60,6 +60,51 @@ def cid(name):
     return name + "_" if name in COQ_KW else name
 
 
+def _unparen(e):
+    while e[0] == "paren":
+        e = e[1]
+    return e
+
+
+FLIP = {"==": "!=", "!=": "==", "<": ">=", ">=": "<", ">": "<=", "<=": ">"}
+
+
+def nnf_not(e):
+    """the expression equal to `!e` with the negation pushed one level inward, or None when `e` is atomic"""
+    e = _unparen(e)
+    if e[0] == "unop" and e[1] == "!":
+        return _unparen(e[2])
+    if as_range_test(e) is not None:
+        return None             # `!(lo <= x && x <= hi)` stays the negation of a range test
+    if e[0] == "binop" and e[1] in ("&&", "||"):
+        return ("binop", "||" if e[1] == "&&" else "&&", ("unop", "!", e[2]), ("unop", "!", e[3]))
+    if e[0] == "binop" and e[1] in FLIP:
+        return ("binop", FLIP[e[1]], e[2], e[3])
+    return None
+
+
+def as_range_test(e):
+    """`lo <= x && x <= hi` (also written with >=) with literal bounds -> (lo, hi, x), else None"""
+    if e[0] != "binop" or e[1] != "&&":
+        return None
+    def le(c):
+        c = _unparen(c)
+        if c[0] == "binop" and c[1] == "<=":
+            return c[2], c[3]
+        if c[0] == "binop" and c[1] == ">=":
+            return c[3], c[2]
+        return None
+    a, b = le(e[2]), le(e[3])
+    if a is None or b is None:
+        return None
+    islit = lambda t: t[0] in ("lit", "byte", "char")
+    if islit(a[0]) and islit(b[1]) and a[1] == b[0] and not islit(a[1]):
+        return a[0], b[1], a[1]
+    if islit(b[0]) and islit(a[1]) and b[1] == a[0] and not islit(b[1]):
+        return b[0], a[1], b[1]
+    return None
+
+
 class FnTr:
     """translator of one function body"""
 
@@ -168,6 +213,25 @@ class FnTr:
             raise TranslationError("field access " + repr(e)[:80])
         if k == "unop":
             if e[1] == "!":
+                # negations are pushed inward first (De Morgan, flipped comparisons, `!!x`), so that `!(a || b)` and
+                # `!a && !b`, `!(a == b)` and `a != b`, `!(a < b)` and `a >= b` generate one and the same term
+                n = nnf_not(e[2])
+                if n is not None:
+                    return self.pure(n)
+                m = _unparen(e[2])
+                if m[0] == "macro" and m[1] == "matches":
+                    # `!matches!(x, a | b | ..)` with literal alternatives is `x != a && x != b && ..`
+                    sub = rsparse.RParser(list(m[2]), self.g.macros)
+                    scrut = sub.parse_expr()
+                    sub.eat(",")
+                    pat = sub.parse_pattern()
+                    alts = pat[1] if pat[0] == "por" else [pat]
+                    if sub.done() and all(q[0] == "plit" for q in alts):
+                        conj = None
+                        for q in alts:
+                            t = ("binop", "!=", scrut, ("lit", q[1]))
+                            conj = t if conj is None else ("binop", "&&", conj, t)
+                        return self.pure(conj)
                 p = self.pure(e[2])
                 if p is None:
                     return None
@@ -205,6 +269,13 @@ class FnTr:
             return (t, to, g)
         if k == "binop":
             op = e[1]
+            rng = as_range_test(e)
+            if rng is not None:
+                # `lo <= x && x <= hi` is `(lo..=hi).contains(&x)`
+                lo, hi, x = self.pure(rng[0]), self.pure(rng[1]), self.pure(rng[2])
+                if lo is not None and hi is not None and x is not None and not x[2] and x[1] in ("u8", "lit"):
+                    return ("(in_rng %s %s %s)" % (self.fixlit(lo[0], lo[1], "u8"), self.fixlit(hi[0], hi[1], "u8"), x[0]),
+                            "bool", [])
             a, b = self.pure(e[2]), self.pure(e[3])
             if a is None or b is None:
                 return None
